@@ -403,6 +403,16 @@ def sec_sampling_rule(rec, patches=None):
     sec_sampling(rec, order=1, corner_safe=False, patches=patches)
 
 
+def sec_rotation_candidates(rec, patches=None):
+    """the rotation written back is the searched rotation of the best candidate, and the candidate templates are the template turned about the box centre (odd and even boxes):
+    executed by C06's ordering and decode sections (T = 2, K = 2; a single non-identity rotation)"""
+    from .c06 import sec_ordering, sec_decode
+
+    sec_ordering(rec, T=2, K=2, patches=patches)
+    sec_ordering(rec, T=1, K=1, nonid=True, patches=patches)
+    sec_decode(rec, T=2, K=2, patches=patches)
+
+
 def sec_batch_order(rec, patches=None):
     """batch loaders: the alignment task of molecule i is cut from the tomogram molecule i was registered with, whatever the order of the image ids (executed by C03's batch section)"""
     from .c03 import sec_batch
@@ -425,7 +435,7 @@ def sec_displacement_kernels(rec, patches=None):
 def sections(tier):
     R = rotation.R30
     pairs = [(R[9], R[10]), (R[0], R[12]), (R[1], R[4])] if quick(tier) else [(R[i], R[(i * 7 + 3) % 30]) for i in range(30)]
-    S = [("units", "checks.c01", "sec_units", {}), ("sampling-rule", "checks.c01", "sec_sampling_rule", {}), ("displacement-kernels", "checks.c01", "sec_displacement_kernels", {}), ("batch-order", "checks.c01", "sec_batch_order", {})]
+    S = [("units", "checks.c01", "sec_units", {}), ("sampling-rule", "checks.c01", "sec_sampling_rule", {}), ("displacement-kernels", "checks.c01", "sec_displacement_kernels", {}), ("batch-order", "checks.c01", "sec_batch_order", {}), ("rotation-candidates", "checks.c01", "sec_rotation_candidates", {})]
     for entry in ("single", "multi", "group"):
         ps = pairs if entry == "single" else pairs[:1] if quick(tier) else pairs[:6]
         for k, pr in enumerate(ps):
